@@ -297,6 +297,51 @@ func c13(r *rand.Rand, tier string, tr *trace.Buf, extra map[string]interface{})
 		}
 		tr.Emit(e)
 	}
+	// crafted hint sections (z and c from a genuine signature): one row holds a short pattern around the
+	// extreme positions 0 and 255; the decoder must accept exactly the canonical ones
+	{
+		msg := []byte("crafted hints")
+		base, _ := d.Sign(msg)
+		pats := [][]byte{{255, 255}, {255, 0}, {255, 254}, {0, 0}, {1, 0}, {0, 1}, {254, 255}, {254, 255, 255}, {254, 255, 0}, {127, 128, 127}, {128, 127},
+			{0}, {255}, {0, 255}, {0, 128, 255}, {5, 5, 6}, {5, 6, 6}}
+		for _, row := range []int{0, 3, 7} {
+			for _, pat := range pats {
+				for _, lead := range []int{0, 2} { // rows before it empty, or two entries in row 0
+					sig := base
+					h := sig[hintOff:]
+					for i := range h {
+						h[i] = 0
+					}
+					k := 0
+					if lead > 0 && row > 0 {
+						h[0], h[1] = 3, 200
+						k = 2
+					}
+					copy(h[k:], pat)
+					for i := 0; i < 8; i++ {
+						switch {
+						case i < row:
+							h[75+i] = byte(k)
+						default:
+							h[75+i] = byte(k + len(pat))
+						}
+					}
+					c, z, hb, rc := dilithium.VerifUnpackSig(sig)
+					e := pEvent{Ev: "sig", Class: "crafted-hints", Rc: rc, Hint: ints(sig[hintOff:]), BytesD: dg(sig[:]), Z: polys(z[:])}
+					for p := 0; p < 7; p++ {
+						e.ZBytes = append(e.ZBytes, ints(sig[32+640*p:32+640*(p+1)]))
+					}
+					e.RepackD = "rejected"
+					if rc == 0 {
+						if rp, err := dilithium.VerifPackSig(c[:], &z, &hb); err == nil {
+							e.RepackD = dg(rp)
+						}
+					}
+					tr.Emit(e)
+				}
+			}
+		}
+	}
 	// key layout
 	for q := 0; q < 2; q++ {
 		r.Read(seed[:])
